@@ -33,6 +33,7 @@ mod c14;
 mod c13;
 mod tables_prec;
 mod tables_lower;
+mod e2e;
 
 fn main() {
     util::silence_panics();
@@ -105,6 +106,7 @@ fn main() {
                 "C08" => c08::run(&params),
                 "C14" => c14::run(&params),
                 "C13" => c13::run(&params),
+                "E2E" => e2e::run(&params),
                 _ => { eprintln!("unknown property {}", id); std::process::exit(2); }
             };
             // the witnesses of this property run as part of every check (regression corpus)
